@@ -160,16 +160,6 @@ theorem rot2_neutral (anchor : V2 Rat) (a : TArr) :
   have e1 : anchor.y + (-0 * ((i : Rat) - anchor.x) + 1 * ((j : Rat) - anchor.y)) = (j : Rat) := by ring
   rw [e0, e1, trunc_int, trunc_int, clipInt_id i _ hi0 hi1, clipInt_id j _ hj0 hj1]
 
-/-- quarter turn (angle +π/2, exact matrix) about the central voxel of a (2m+1)² image: `np.rot90(img, 1)`. -/
-theorem rotcorr_quarter_turn_2d (m : Nat) (a : TArr) (h0 : a.arr.n0 = 2 * m + 1) (h1 : a.arr.n1 = 2 * m + 1)
-    (i j : Int) (hi0 : 0 ≤ i) (hi1 : i < a.arr.n0) (hj0 : 0 ≤ j) (hj1 : j < a.arr.n1) :
-    (rotCorr2 ⟨(m : Rat), (m : Rat)⟩ (rot2Inv 0 1) a).arr.get i j = rot90 a.arr.n1 a.arr.get i j := by
-  simp only [rotCorr2, rotSrc2, rot2Inv, M2.mulVec, V2.add, V2.sub, rot90]
-  have e0 : (m : Rat) + (0 * ((i : Rat) - (m : Rat)) + 1 * ((j : Rat) - (m : Rat))) = ((j : Int) : Rat) := by ring
-  have e1 : (m : Rat) + (-1 * ((i : Rat) - (m : Rat)) + 0 * ((j : Rat) - (m : Rat)))
-      = (((a.arr.n1 : Int) - 1 - i : Int) : Rat) := by rw [h1]; push_cast; ring
-  rw [e0, e1, trunc_int, trunc_int, clipInt_id j _ hj0 (by omega), clipInt_id _ _ (by omega) (by omega)]
-
 theorem rot3_pure (anchor : V3 Rat) (Rinv : M3 Rat) (a b : TArr3) (h : a.agree b) :
     (rotCorr3 anchor Rinv a).agree (rotCorr3 anchor Rinv b) := by
   obtain ⟨_, h0, h1, h2, hv⟩ := h
@@ -201,41 +191,6 @@ theorem rot3_neutral (anchor : V3 Rat) (a : TArr3) :
       = (k : Rat) := by ring
   rw [e0, e1, e2, trunc_int, trunc_int, trunc_int, clipInt_id i _ hi0 hi1, clipInt_id j _ hj0 hj1,
     clipInt_id k _ hk0 hk1]
-
-/-- 3-D quarter turns (+π/2 about each matrix axis, exact matrices) about the central voxel of a (2m+1)³ image
-are `np.rot90` in the planes (1,2), (2,0), (0,1). -/
-theorem rotcorr_quarter_turn_3d (axis : Ax3) (m : Nat) (a : TArr3)
-    (h0 : a.arr.n0 = 2 * m + 1) (h1 : a.arr.n1 = 2 * m + 1) (h2 : a.arr.n2 = 2 * m + 1)
-    (i j k : Int) (hi0 : 0 ≤ i) (hi1 : i < a.arr.n0) (hj0 : 0 ≤ j) (hj1 : j < a.arr.n1)
-    (hk0 : 0 ≤ k) (hk1 : k < a.arr.n2) :
-    (rotCorr3 ⟨(m : Rat), (m : Rat), (m : Rat)⟩ (rotationInv [⟨axis, false, 0, 1⟩]) a).arr.get i j k
-      = rot90_3 axis (2 * m + 1) a.arr.get i j k := by
-  have hR : rotationInv [(⟨axis, false, 0, 1⟩ : Factor Rat)] = elem axis 0 (-1) := by
-    simp only [rotationInv, rotationLoop, List.foldl_cons, List.foldl_nil, Factor.inv, Factor.sf]
-    exact M3.mul_one _
-  rw [hR]
-  cases axis
-  · simp only [rotCorr3, rotSrc3, elem, M3.mulVec, V3.add, V3.sub, rot90_3]
-    have e0 : (m : Rat) + (1 * ((i : Rat) - m) + 0 * ((j : Rat) - m) + 0 * ((k : Rat) - m)) = ((i : Int) : Rat) := by ring
-    have e1 : (m : Rat) + (0 * ((i : Rat) - m) + 0 * ((j : Rat) - m) + - -1 * ((k : Rat) - m)) = ((k : Int) : Rat) := by ring
-    have e2 : (m : Rat) + (0 * ((i : Rat) - m) + -1 * ((j : Rat) - m) + 0 * ((k : Rat) - m))
-        = (((2 * m + 1 : Nat) : Int) - 1 - j : Int) := by push_cast; ring
-    rw [e0, e1, e2, trunc_int, trunc_int, trunc_int, clipInt_id i _ hi0 hi1, clipInt_id k _ hk0 (by omega),
-      clipInt_id _ _ (by omega) (by omega)]
-  · simp only [rotCorr3, rotSrc3, elem, M3.mulVec, V3.add, V3.sub, rot90_3]
-    have e0 : (m : Rat) + (0 * ((i : Rat) - m) + 0 * ((j : Rat) - m) + -1 * ((k : Rat) - m))
-        = (((2 * m + 1 : Nat) : Int) - 1 - k : Int) := by push_cast; ring
-    have e1 : (m : Rat) + (0 * ((i : Rat) - m) + 1 * ((j : Rat) - m) + 0 * ((k : Rat) - m)) = ((j : Int) : Rat) := by ring
-    have e2 : (m : Rat) + (- -1 * ((i : Rat) - m) + 0 * ((j : Rat) - m) + 0 * ((k : Rat) - m)) = ((i : Int) : Rat) := by ring
-    rw [e0, e1, e2, trunc_int, trunc_int, trunc_int, clipInt_id _ _ (by omega) (by omega), clipInt_id j _ hj0 hj1,
-      clipInt_id i _ hi0 (by omega)]
-  · simp only [rotCorr3, rotSrc3, elem, M3.mulVec, V3.add, V3.sub, rot90_3]
-    have e0 : (m : Rat) + (0 * ((i : Rat) - m) + - -1 * ((j : Rat) - m) + 0 * ((k : Rat) - m)) = ((j : Int) : Rat) := by ring
-    have e1 : (m : Rat) + (-1 * ((i : Rat) - m) + 0 * ((j : Rat) - m) + 0 * ((k : Rat) - m))
-        = (((2 * m + 1 : Nat) : Int) - 1 - i : Int) := by push_cast; ring
-    have e2 : (m : Rat) + (0 * ((i : Rat) - m) + 0 * ((j : Rat) - m) + 1 * ((k : Rat) - m)) = ((k : Int) : Rat) := by ring
-    rw [e0, e1, e2, trunc_int, trunc_int, trunc_int, clipInt_id j _ hj0 (by omega), clipInt_id _ _ (by omega) (by omega),
-      clipInt_id k _ hk0 hk1]
 
 /-- TransformationCorrection reads only values inside the source box (guard: the array has the shape of the source
 coordinate system — otherwise the real code indexes out of range or reads other voxels). -/
